@@ -12,7 +12,7 @@ use std::collections::HashMap;
 use vcommon::onnxpb::{FLOAT, UINT8};
 use vcommon::{Args, Json, Report, Rng, json, to_hex};
 
-const RULE: &str = "Cases: generated ONNX models whose initialisers (f32/i32/u8/i8, plus i64/f64/bool/f16) are external, loaded through ModelOptions::load_file (FileLoader), load_mmap (MmapLoader) and external_data+load (MemLoader) from a scratch tree (model dir m/ with recognised, unrecognised, nested, backslash, unicode, 255-byte, empty and symlinked names; secret.data one level up; cwd = parent of m/). Locations: a hand-written list (~170), a grammar over path components joined by '/' and '\\', mutations of valid names, random strings; offsets/lengths: absent, 0, size, size+-1, 2^31, 2^32, 2^63-1, 2^63, 2^64-1, negative, non-numeric, pairs whose sum wraps u64, lengths not matching shape*dtype; an offset x length grid on two files. Each (case, loader) runs in a forked child. Result monitor: load Ok => every location is, by the harness's own string predicate, a single plain file name with a recognised data extension that exists directly in m/ (for MemLoader: the buffer registered under exactly that key), the range lies inside the file (u128 arithmetic), and the constant read back (as graph output and as the constant node) equals file[offset..offset+length] decoded little-endian; a case that is not acceptable must end in Err - panic, abort, fatal signal or hang is a violation. System-call monitor: the same loads run in children under strace -f -e trace=open,openat,openat2,creat; every successful open inside a case's section other than the model file must be <model dir>/<one acceptable component> (symlinks resolved in the directory part only); a positive control (direct opens of ../secret.data, an absolute path, sub/x.data, notes.txt) must be reported by the log parser. Refusals are never violations. Not flagged, only counted: names the statement does not decide (extension merely starting with 'data', '.data', NUL, non-UTF-8), Windows-style names that are ordinary file names on this host, and a symlink with an acceptable name directly inside m/ whose target is elsewhere (the statement constrains the location string, not link targets; docs/security.md does not mention links). Non-trivial = a (loader, tensor spec) for which the loader really consulted an external source: load Ok and bytes compared, or a refusal whose message comes from the path check ('disallowed path'), the bounds check ('file too short', 'invalid data length') or the I/O layer on an accepted name (io error).";
+const RULE: &str = "Cases: generated ONNX models whose initialisers (f32/i32/u8/i8, plus i64/f64/bool/f16) are external, loaded through ModelOptions::load_file (FileLoader), load_mmap (MmapLoader) and external_data+load (MemLoader) from a scratch tree (model dir m/ with recognised, unrecognised, nested, backslash, unicode, 255-byte, empty and symlinked names; secret.data one level up; cwd = parent of m/). Locations: a hand-written list (~150), a grammar over path components joined by '/' and '\\', mutations of valid names, random strings; offsets/lengths: absent, 0, size, size+-1, 2^31, 2^32, 2^63-1, 2^63, 2^64-1, negative, non-numeric, pairs whose sum wraps u64, lengths not matching shape*dtype; an offset x length grid on two files. Each (case, loader) runs in a forked child. Result monitor: load Ok => every location is, by the harness's own string predicate, a single plain file name with a recognised data extension that exists directly in m/ (for MemLoader: the buffer registered under exactly that key), the range lies inside the file (u128 arithmetic), and the constant read back (as graph output and as the constant node) equals file[offset..offset+length] decoded little-endian; a case that is not acceptable must end in Err - panic, abort, fatal signal or hang is a violation. System-call monitor: the same loads run in children under strace -f -e trace=open,openat,openat2,creat; every successful open inside a case's section other than the model file must be <model dir>/<one acceptable component> (symlinks resolved in the directory part only); a positive control (direct opens of ../secret.data, an absolute path, sub/x.data, notes.txt) must be reported by the log parser. Refusals are never violations. Not flagged, only counted: names the statement does not decide (extension merely starting with 'data', '.data', NUL, non-UTF-8), Windows-style names that are ordinary file names on this host, and a symlink with an acceptable name directly inside m/ whose target is elsewhere (the statement constrains the location string, not link targets; docs/security.md does not mention links). Non-trivial = a (loader, tensor spec) for which the loader really consulted an external source: load Ok and bytes compared, or a refusal whose message comes from the path check ('disallowed path'), the bounds check ('file too short', 'invalid data length') or the I/O layer on an accepted name (io error); for the system-call monitor, a (loader, file name) pair whose data file was seen being opened inside the model directory.";
 
 struct Ctx<'a> {
     tree: &'a Tree,
